@@ -27,6 +27,9 @@ type rgRunner struct {
 	everMin  bool
 	initial  bool // the operation at hand started with no table open
 	registered int
+	forceElim []int // replay: the members to eliminate in the next sync (nil = choose at random)
+	forceRel  []int // replay: the members to release after the next sync (nil = choose at random)
+	forced    bool
 }
 
 func pidStr(ids []int) string {
@@ -345,10 +348,19 @@ func (g *rgRunner) sync1(t int, out int, rng *Rng) bool {
 	}
 	g.begin()
 	ms, known := g.members[t]
+	var elim []int
 	if known {
 		// eliminate `out` members first
 		for k := 0; k < out && len(ms) > 0; k++ {
 			i := rng.Intn(len(ms))
+			if g.forced && k < len(g.forceElim) {
+				for j, id := range ms {
+					if id == g.forceElim[k] {
+						i = j
+					}
+				}
+			}
+			elim = append(elim, ms[i])
 			delete(g.alive, ms[i])
 			ms = append(ms[:i], ms[i+1:]...)
 		}
@@ -359,7 +371,7 @@ func (g *rgRunner) sync1(t int, out int, rng *Rng) bool {
 	var err error
 	prePlayers, preTables := g.r.GetPlayerCount(), g.r.GetTableCount()
 	_, pan := safely(func() error { rel, nw, err = g.r.SyncState(itoa(int64(t)), out); return nil })
-	line := fmt.Sprintf("rg sync %d %d", t, out)
+	line := fmt.Sprintf("rg sync %d %d %s", t, out, pidStr(elim))
 	if pan {
 		g.fail(line)
 		return false
@@ -410,6 +422,13 @@ func (g *rgRunner) sync1(t int, out int, rng *Rng) bool {
 		ms := g.members[t]
 		for k := 0; k < rel; k++ {
 			i := rng.Intn(len(ms))
+			if g.forced && k < len(g.forceRel) {
+				for j, id := range ms {
+					if id == g.forceRel[k] {
+						i = j
+					}
+				}
+			}
 			released = append(released, ms[i])
 			ms = append(ms[:i], ms[i+1:]...)
 		}
@@ -550,6 +569,48 @@ func (g *rgRunner) settle(rng *Rng, limit int) int {
 		sweeps++
 	}
 	return sweeps
+}
+
+// replay re-executes recorded regulator lines.  The members eliminated and released are taken
+// from the recorded lines; which table getAvailableTable picks is a Go map iteration and may
+// differ from the recorded run.
+func (g *rgRunner) replay(lines []string) {
+	rng := NewRng(1)
+	for k, l := range lines {
+		f := strings.Fields(l)
+		if len(f) < 2 || f[0] != "rg" {
+			continue
+		}
+		switch f[1] {
+		case "new":
+			g.newRG(int(atoi(f[2])), int(atoi(f[3])))
+		case "add":
+			ids := parseIDs(f[2])
+			for _, id := range ids {
+				if id > g.nextPid {
+					g.nextPid = id
+				}
+			}
+			g.add(ids)
+		case "status":
+			g.setStatus(f[2])
+		case "sync":
+			g.forced, g.forceElim, g.forceRel = true, nil, nil
+			if len(f) > 4 {
+				g.forceElim = parseIDs(f[4])
+			}
+			if k+1 < len(lines) {
+				nf := strings.Fields(lines[k+1])
+				if len(nf) > 3 && nf[1] == "release" {
+					g.forceRel = parseIDs(nf[3])
+				}
+			}
+			g.sync(int(atoi(f[2])), int(atoi(f[3])), rng)
+			g.forced = false
+		case "release":
+			// carried out by the sync that precedes it
+		}
+	}
 }
 
 func runRG(dir string, seed uint64, n int) {
